@@ -79,29 +79,43 @@ OPTKEYS = ["latency_control", "latency_buffer_size", "auto_hosts", "to_nameserve
 MODEL_MAX = 4000000         # bytes of module source handed to the extracted model in one case
 
 STUB_ZLIB = r'''
-Z_SYNC_FLUSH = 2
+# stand-in codec.  The only law the proofs assume of zlib is the sync-flush law: after
+# compress(x) + flush(Z_SYNC_FLUSH) (or Z_FULL_FLUSH / Z_FINISH) the decompressor can produce all of x
+# from exactly those bytes.  Every other flush mode gives NO such guarantee (real zlib holds back up to
+# 7 bits with Z_BLOCK, arbitrary amounts with Z_NO_FLUSH): the stand-in then holds back the last byte of
+# the chunk and emits it at the head of the next one, which is the least a caller must be prepared for.
+Z_NO_FLUSH, Z_PARTIAL_FLUSH, Z_SYNC_FLUSH, Z_FULL_FLUSH, Z_FINISH, Z_BLOCK = 0, 1, 2, 3, 4, 5
+Z_DEFAULT_COMPRESSION, Z_BEST_SPEED, Z_BEST_COMPRESSION, DEFLATED, MAX_WBITS = -1, 1, 9, 8, 15
 class error(Exception):
     pass
 class _C(object):
     def __init__(self):
         self.n = 0
+        self.held = b''
+        self.cur = b''
     def compress(self, d):
-        return bytes(bytearray([self.n % 251])) + bytes(d)
-    def flush(self, mode=None):
+        self.cur += bytes(d)
+        return b''
+    def flush(self, mode=4):
+        d, self.cur = self.held + self.cur, b''
+        self.held = b''
+        if mode not in (2, 3, 4):
+            d, self.held = d[:-1], d[-1:]
+        out = bytes(bytearray([self.n % 251])) + d + b'\xff'
         self.n += 1
-        return b'\xff'
+        return out
 class _D(object):
     def __init__(self):
         self.n = 0
-    def decompress(self, c):
+    def decompress(self, c, max_length=0):
         c = bytes(c)
         if len(c) >= 2 and bytearray(c)[0] == self.n % 251 and bytearray(c)[-1] == 255:
             self.n += 1
             return c[1:-1]
         return b''
-def compressobj(level=-1):
+def compressobj(level=-1, *a, **k):
     return _C()
-def decompressobj():
+def decompressobj(*a, **k):
     return _D()
 '''
 
@@ -693,6 +707,10 @@ def gen_source(rng, kind, size):
                         return chr(c)
             txt = "".join(uc() for _ in range(rng.randint(1, 50)))
             ln = (rng.choice(["# %s\n" % txt, "u%d = %r\n" % (i, txt), "u%d = '''%s'''\n" % (i, txt.replace("\\", "/").replace("'", '"'))])).encode("utf-8")
+        elif kind == "runs":   # dominated by very few symbols: long runs, rulers, one statement repeated
+            ln = rng.choice([b"\n" * rng.randint(1, 400), b"#" * rng.randint(1, 300) + b"\n",
+                             b"x = 1\n" * rng.randint(1, 200), b" " * rng.randint(0, 200) + b"\n",
+                             b"pass\n", b"# " + b"=-" * rng.randint(1, 150) + b"\n"])
         else:   # noise: poorly compressible
             ln = b"# " + rng.randbytes(min(96, max(1, (size - n) // 2))).hex().encode() + b"\n"
         out.append(ln)
@@ -806,9 +824,11 @@ def gen_table(rng, profile):
     """sources for the six names get_module_source is asked for"""
     kinds = {
         "tiny": lambda: rng.choice([("empty", 0), ("byte", 1), ("ascii", rng.randint(2, 40))]),
-        "small": lambda: rng.choice([("ascii", rng.randint(1, 600)), ("utf8", rng.randint(1, 600)), ("empty", 0), ("byte", 1)]),
+        "small": lambda: rng.choice([("ascii", rng.randint(1, 600)), ("utf8", rng.randint(1, 600)), ("empty", 0), ("byte", 1),
+                                     ("runs", rng.randint(1, 900))]),
         "medium": lambda: rng.choice([("ascii", rng.randint(1000, 9000)), ("utf8", rng.randint(1000, 20000)),
-                                      ("noise", rng.choice([4095, 4096, 8191, 8192, 8193, 16384, 32768])), ("empty", 0)]),
+                                      ("noise", rng.choice([4095, 4096, 8191, 8192, 8193, 16384, 32768])), ("empty", 0),
+                                      ("runs", rng.choice([5000, 20000, 70000]))]),
         "pipe": lambda: rng.choice([("noise", rng.choice([65535, 65536, 65537, 70000, 140000])), ("utf8", 70000), ("byte", 1)]),
         "huge": lambda: rng.choice([("noise", 1100000), ("ascii", 300), ("empty", 0)]),
     }[profile]
@@ -1712,13 +1732,22 @@ def part_client(ctx):
 def correspondence(ctx):
     sys.path.insert(0, REPO) if REPO not in sys.path else None
     scr = Scratch()
+    def part(f, *a):
+        # a part that cannot cope with the code under check is a broken tie (reported without input); the
+        # OTHER parts still run, so that one of them can exhibit the failing input
+        try:
+            return f(*a)
+        except Exception:
+            import traceback
+            ctx.disagree("harness part %s crashed" % f.__name__, None, traceback.format_exc()[-1500:], None)
+            return None
     try:
-        part_primitives(ctx)
-        part_packaging(ctx)
-        part_client(ctx)
-        part_malformed(ctx, scr)
-        rw = part_remote(ctx, scr)
-        part_bootstrap(ctx, scr, rw)
+        part(part_primitives, ctx)
+        part(part_packaging, ctx)
+        part(part_client, ctx)
+        part(part_malformed, ctx, scr)
+        rw = part(part_remote, ctx, scr)
+        part(part_bootstrap, ctx, scr, rw)
         srv = ctx.run_driver(["SERVER %s" % numhex(0), "SERVER %s" % numhex(32768), "SYNC"])
         if not (srv[0].split("|")[1].strip() == srv[1].split("|")[1].strip() == srv[2].split(" ")[0]):
             ctx.disagree("server_main_start stdout", "SERVER", srv[2], srv[:2])
